@@ -40,6 +40,8 @@ def gen(ctx):
             if not ctx.quick and pi == 5:
                 mc = rnd.choice([200, 2000, 20000, 100000]) if si % 7 == 0 else 200
             cases.append((si, IO.fmt_dat(IO.gen_dat(inf, rnd, p, maxcells=mc))))
+        if si % 5 == 0:      # a large array now and then: a block-wise reader/writer must not depend on 256/512-scalar boundaries
+            cases.append((si, IO.fmt_dat(IO.gen_dat(inf, rnd, "special", maxcells=rnd.choice([1200, 2600]), ext_pool=[5, 6, 7, 9, 11, 13]))))
     return stacks, cases
 
 
